@@ -6188,6 +6188,10 @@ class FlowIRConcrete(object):
         if FlowIR.LabelGlobal not in self._flowir[FlowIR.FieldVariables][platform]:
             self._flowir[FlowIR.FieldVariables][platform][FlowIR.LabelGlobal] = {}
 
+        # VV: a platform always has a (possibly empty) collection of stage variables
+        if FlowIR.LabelStages not in self._flowir[FlowIR.FieldVariables][platform]:
+            self._flowir[FlowIR.FieldVariables][platform][FlowIR.LabelStages] = {}
+
         self._flowir[FlowIR.FieldVariables][platform][FlowIR.LabelGlobal][variable] = value
 
         self._cache.clear()
